@@ -466,7 +466,7 @@ fn seqs(alpha: &[Call], max: usize) -> Vec<Vec<Call>> {
 }
 
 fn sync_part(tier: Tier, shard: Shard, stats: &mut Stats, case: &mut u64) {
-    let depth = if tier == Tier::Quick { 3 } else { 4 };
+    let depth = if tier == Tier::Quick { 3 } else { 5 };
     for fam in [Family::Reader, Family::BufReader, Family::Writer, Family::Seeker] {
         let alpha = calls_of(fam);
         let all = seqs(&alpha, depth);
